@@ -14,6 +14,8 @@ mm = {m["id"]: m for m in mutants.MUTANTS}
 
 
 def verdict(d):
+    if d.get("withdrawn"):
+        return "not counted"
     if d["exit"] == 1:
         return "caught"
     if d["exit"] == 0:
@@ -30,7 +32,7 @@ out.append("Every change below was applied to a scratch copy of the repository o
            "`sensitivity_results.json` by `tools/sens_report.py`.\n")
 out.append("### 11.1 Independently written changes (`seeded/<id>/`)\n")
 out.append("Written by sub-agents that were given only the property text and a scratch worktree (rounds 2-4 also a list of "
-           "ideas already used, so that they would not repeat them); each was confirmed before being kept (patch applies to "
+           "ideas already used, so that they would not repeat them; round 6 ran after the oracles had been reviewed and relaxed); each was confirmed before being kept (patch applies to "
            "HEAD, 433/433 tests pass with it, its demonstration fails with it and passes without it: "
            "`seeded/<id>/confirm.log`). Four changes are marked *adversarial*: their authors were additionally told in prose "
            "what the check observes (no file from `/verif`) and asked for a change likely to slip past it - all four did "
@@ -62,9 +64,9 @@ for k in sorted(data, key=lambda x: (x.split("-")[0], x)):
         k, d["prop"], os.path.basename(d.get("file", "")), "F" if d.get("fault") else "", d.get("expected", ""),
         verdict(d), ", ".join(d["classes"]) or "(regression replays of repaired defects fired first)", d["first_run"]))
 planted = [d for d in data.values() if d.get("kind") == "planted"]
-seeded = [d for d in data.values() if d.get("kind") == "seeded"]
+seeded = [d for d in data.values() if d.get("kind") == "seeded" and not d.get("withdrawn")]
 out.append("")
-out.append("Planted: %d of %d caught. Seeded: %d of %d caught.\n" % (
+out.append("Planted: %d of %d caught. Seeded: %d of %d caught (one further seeded change was withdrawn as not violating its property).\n" % (
     sum(1 for d in planted if d["exit"] == 1), len(planted), sum(1 for d in seeded if d["exit"] == 1), len(seeded)))
 text = "\n".join(out) + "\n"
 p = os.path.join(VERIF, "DESIGN.md")
